@@ -56,7 +56,7 @@ NoHk == [ev |-> "", seq |-> <<>>, i |-> 0, j |-> 0, rev |-> 0, defs |-> <<>>, ok
 
 NoU == [kind |-> "none", chart |-> "none", replace |-> FALSE, atomic |-> FALSE, cleanup |-> FALSE,
         keep |-> FALSE, nohooks |-> FALSE, lim |-> 0, ver |-> 0, dry |-> FALSE, takeown |-> FALSE,
-        clientOnly |-> FALSE, createNS |-> FALSE, skipCRDs |-> FALSE, force |-> FALSE]
+        clientOnly |-> FALSE, createNS |-> FALSE, skipCRDs |-> FALSE, force |-> FALSE, install |-> FALSE]
 
 NoOp == [u |-> NoU,
          keep |-> FALSE, nohooks |-> FALSE, ver |-> 0, lim |-> 0, cleanup |-> FALSE,
@@ -692,6 +692,21 @@ X_Purge(p) ==
 
 (* ----- upgrade ------------------------------------------------------------------------ *)
 
+\* helm upgrade --install (pkg/cmd/upgrade.go): History first; no release, or a last revision that is
+\* uninstalled, hands the operation over to an Install client with the options copied (and --replace set
+\* in the second case); otherwise it is a plain upgrade
+U_InstallFallback(o) ==
+  LET u2 == [o.u EXCEPT !.kind = "install", !.replace = (Used # {}), !.install = FALSE, !.cleanup = FALSE, !.lim = 0]
+      o1 == [o EXCEPT !.u = u2, !.tgtman = ChartMan(o.u.chart), !.cleanup = FALSE, !.lim = 0] IN
+  IF u2.dry THEN ICRDStart(o1) ELSE [pc |-> "I_Name", op |-> o1]
+
+UI_Hist(p) ==
+  /\ pc[p] = "UI_Hist" /\ Budgets
+  /\ LET o == op[p] IN
+     StoreRead(p, "query", "history", Used # {},
+               IF Used = {} \/ store[Last].st = "uninstalled" THEN U_InstallFallback(o)
+               ELSE [pc |-> "U_Last", op |-> o])
+
 U_Last(p) ==
   /\ pc[p] = "U_Last" /\ Budgets
   /\ LET o == op[p] IN
@@ -883,7 +898,7 @@ BeginT(m) ==
   CASE m.kind = "install"   -> LET o1 == [o EXCEPT !.tgtman = ChartMan(m.chart)] IN
                                IF m.clientOnly THEN Done(o1, "ok")
                                ELSE IF m.dry THEN ICRDStart(o1) ELSE [pc |-> "I_Name", op |-> o1]
-    [] m.kind = "upgrade"   -> [pc |-> "U_Last", op |-> o]
+    [] m.kind = "upgrade"   -> IF m.install THEN [pc |-> "UI_Hist", op |-> o] ELSE [pc |-> "U_Last", op |-> o]
     [] m.kind = "rollback"  -> [pc |-> "R_Last", op |-> o]
     [] m.kind = "uninstall" -> [pc |-> "X_Hist", op |-> o]
 
@@ -952,7 +967,7 @@ CallStep(p) ==
   \/ I_Name(p) \/ I_CRD(p) \/ I_CRDWait(p) \/ I_CreateNS(p) \/ I_Own(p) \/ I_ReplHist(p) \/ I_ReplUpdate(p) \/ I_Create(p) \/ I_CreateRes(p)
   \/ I_Wait(p) \/ I_Deployed(p) \/ I_FailRec(p)
   \/ X_Hist(p) \/ X_Mark(p) \/ X_Del(p) \/ X_RecUn(p) \/ X_Purge(p)
-  \/ U_Last(p) \/ U_Deployed(p) \/ U_Own(p) \/ U_Create(p) \/ U_ReRecord(p) \/ U_Wait(p)
+  \/ UI_Hist(p) \/ U_Last(p) \/ U_Deployed(p) \/ U_Own(p) \/ U_Create(p) \/ U_ReRecord(p) \/ U_Wait(p)
   \/ U_Supersede(p) \/ U_RecDeployed(p) \/ U_FailRec(p) \/ C_Del(p) \/ A_Hist(p)
   \/ R_Last(p) \/ R_Hist(p) \/ R_GetTgt(p) \/ R_Create(p) \/ R_FailCur(p) \/ R_FailNew(p) \/ R_Wait(p)
   \/ R_WFailCur(p) \/ R_WFailNew(p) \/ R_DepAll(p) \/ R_Sup(p) \/ R_RecDeployed(p)
